@@ -855,31 +855,38 @@ class Engine:
                 return
             isbool = d[0] in ('ok', 'cmp') or ('l' in t['d'] and self.locals[t['d']['l']]['ty'] == 'bool') or (d[0] == 'call' and self.value_ty(d) == 'bool')
             taken = []
+            cur = facts.get(d)
             for v, tb in targets:
                 vv = mapping[v] if mapping and v in mapping else v
                 if neg:
                     vv = 0 if vv else 1
                 taken.append(vv)
-                if d in facts and facts[d] != vv:
-                    continue
+                if cur is not None:
+                    if isinstance(cur, tuple):
+                        if vv in cur[1]:
+                            continue          # this value was excluded by an earlier `otherwise` edge
+                    elif cur != vv:
+                        continue
                 f2 = dict(facts); f2[d] = vv
                 yield tb, env, f2
             if isbool:
                 rest = [x for x in (0, 1) if x not in taken]
                 for vv in rest:
-                    if d in facts and facts[d] != vv:
+                    if cur is not None and not isinstance(cur, tuple) and cur != vv:
+                        continue
+                    if isinstance(cur, tuple) and vv in cur[1]:
                         continue
                     f2 = dict(facts); f2[d] = vv
                     yield t['o'], env, f2
             else:
-                if d in facts and not isinstance(facts[d], tuple) and facts[d] in taken:
-                    return
-                if d in facts and not isinstance(facts[d], tuple):
+                if cur is not None and not isinstance(cur, tuple):
+                    if cur in taken:
+                        return
                     yield t['o'], env, facts
                     return
                 f2 = dict(facts)
-                if d not in f2:
-                    f2[d] = ('else', tuple(taken))
+                excl = tuple(sorted(set(taken) | (set(cur[1]) if isinstance(cur, tuple) else set())))
+                f2[d] = ('else', excl)
                 yield t['o'], env, f2
             return
 
